@@ -238,6 +238,30 @@ def r14_closures(ctx, t, closure_specs):
 PROFILES = ('verbatim', 'unsync', 'sync', 'plain')
 
 
+_CALL = r'(?P<call>(?:[\w]+(?:::|\.))*\w+\((?:[^()]|\([^()]*\))*\))'
+
+
+def r22_result_adapters(ctx, t):
+    """R22: closure adapters on a Result are written out as the `match` they abbreviate (std semantics):
+         CALL.inspect(|v| S).map_err(Into::into)  ==  match CALL { Ok(v) => { S[*v := v]; Ok(v) } Err(e__) => Err(err_into(e__)) }
+         CALL.map(|(a, b)| E)                     ==  match CALL { Ok((a, b)) => Ok(E), Err(e__) => Err(e__) }
+       (`err_into` is the unit's name for the `From` conversion of the error type)"""
+    def insp(m):
+        v, st = m.group('v'), m.group('s').strip()
+        st = re.sub(r'\*' + re.escape(v) + r'\b', v, st)
+        return 'match %s { Ok(%s) => { %s; Ok(%s) } Err(e__) => Err(err_into(e__)) }' % (m.group('call'), v, st, v)
+    t2 = re.sub(_CALL + r'\s*\.inspect\(\|(?P<v>\w+)\|\s*(?P<s>[^|;{}]+?)\)\s*\.map_err\(Into::into\)', insp, t)
+    if t2 != t:
+        ctx.hit('R22')
+    t = t2
+    def mp(m):
+        return 'match %s { Ok((%s, %s)) => Ok(%s), Err(e__) => Err(e__) }' % (m.group('call'), m.group('a'), m.group('b'), m.group('e').strip())
+    t2 = re.sub(_CALL + r'\s*\.map\(\|\((?P<a>\w+), (?P<b>\w+)\)\|\s*(?P<e>\((?:[^()]|\([^()]*\))*\))\)(?!\s*\.)', mp, t)
+    if t2 != t:
+        ctx.hit('R22')
+    return t2
+
+
 def translate(text, ctx, closure_specs=()):
     """text = stripped fn text. Returns (signature, body)."""
     t = text
@@ -261,6 +285,8 @@ def translate(text, ctx, closure_specs=()):
         if ctx.profile == 'sync':
             body = sync_atomics(ctx, body)
         body = r3b_header_writes(ctx, body)
+    if ctx.profile == 'plain':
+        body = r22_result_adapters(ctx, body)
     body = r14_closures(ctx, body, closure_specs)
     if ctx.profile != 'verbatim':
         body = re.sub(r'(?<![:\w])mem::(size_of|align_of|needs_drop)', r'core::mem::\1', body)
